@@ -3,6 +3,7 @@ package c09
 
 import (
 	"fmt"
+	"path/filepath"
 	"strings"
 
 	"verifharness/hx"
@@ -17,6 +18,8 @@ type kase struct {
 	Kind  string `json:"kind,omitempty"` // "" standard page, "bidi" page with mixed-direction lines
 	Page  *Page  `json:"page,omitempty"`
 }
+
+const kindDoc = "doc"
 
 // bidiBase: fork index of the first bidi page (the standard pages keep 0..n-1).
 const bidiBase = 1000000
@@ -37,6 +40,7 @@ func runPage(c *hx.Ctx, k kase, pg Page) {
 	}
 	oracleLayout(c, k, pg)
 	oraclePDF(c, k, pg)
+	c.Guard("C09", k, 60, func() { opPageText(c, k, pg, filepath.Join(c.OutDir, "page.pdf")) })
 }
 
 func Run(c *hx.Ctx) {
@@ -72,6 +76,17 @@ func Run(c *hx.Ctx) {
 		runPage(c, k, pg)
 		c.Case(fmt.Sprintf("%d/%d", c.Seed, i), len(pg.F) > 0)
 	}
+	// documents of several pages: the page loops of the public entry points
+	for i := 0; i < c.N(25, 250); i++ {
+		k := kase{Seed: c.Seed, Index: docBase + i, Kind: kindDoc}
+		c.Current(k)
+		runDoc(c, k)
+		c.Case(fmt.Sprintf("%d/%d", c.Seed, docBase+i), true)
+	}
+	// pages of white-space fragments only: the fall-backs of the text paths
+	for i := 0; i < c.N(30, 300); i++ {
+		opBlankPage(c, c.Rng.Fork(uint64(2*bidiBase+i)), 612, 792)
+	}
 }
 
 func Replay(c *hx.Ctx, m map[string]interface{}) {
@@ -79,6 +94,11 @@ func Replay(c *hx.Ctx, m map[string]interface{}) {
 	var k kase
 	if err := hx.Remarshal(m, &k); err != nil {
 		c.Note("bad case: %v", err)
+		return
+	}
+	if k.Kind == kindDoc {
+		c.Seed = k.Seed
+		runDoc(c, k)
 		return
 	}
 	var pg Page
